@@ -166,6 +166,10 @@ fn lib_blp_to_png(p: &Path) -> R {
     let img = wow_blp::parser::load_blp(p).map_err(es)?;
     wow_blp::convert::blp_to_image(&img, 0).map(|_| ()).map_err(es)
 }
+fn lib_blp_level_to_png(p: &Path, level: usize) -> R {
+    let img = wow_blp::parser::load_blp(p).map_err(es)?;
+    wow_blp::convert::blp_to_image(&img, level).map(|_| ()).map_err(es)
+}
 fn lib_blp_to_blp2_dxt5(p: &Path) -> RB {
     use wow_blp::convert::{Blp2Format, BlpTarget, DxtAlgorithm, image_to_blp};
     let img = wow_blp::parser::load_blp(p).map_err(es)?;
@@ -640,6 +644,12 @@ fn plan(fmt: &str, seed: &Seed, class: &str, p: &Path, tmp: &Path, schema_path: 
             add!("blp", "validate", "default", sv(&["blp", "validate", "{in}"]), load.clone(), None, "text");
             add!("blp", "validate", "strict", sv(&["blp", "validate", "{in}", "--strict"]), verdict(|| lib_blp_strict(p)), None, "text");
             add!("blp", "convert", "to-png", sv(&["blp", "convert", "{in}", "{out}.png"]), verdict(|| lib_blp_to_png(p)), Some(("png", "{out}.png".into(), String::new())), "text");
+            // other mipmap levels: one that the texture may hold, and levels beyond anything a texture of this size stores
+            // (the library's blp_to_image decides; a level that does not exist is a failed conversion)
+            for level in [1usize, 4, 15] {
+                add!("blp", "convert", if level == 1 { "to-png-level1" } else if level == 4 { "to-png-level4" } else { "to-png-level15" },
+                     sv(&["blp", "convert", "{in}", "{out}.png", "--mipmap-level", &level.to_string()]), verdict(|| lib_blp_level_to_png(p, level)), Some(("png", "{out}.png".into(), String::new())), "text");
+            }
             add!(
                 "blp",
                 "convert",
@@ -911,6 +921,36 @@ fn wdt_border_seed() -> Seed {
     Seed::chunked("wdt/wotlk-border-tiles", out)
 }
 
+/// Models that load but do not pass `M2Model::validate()` (no vertices; one bone whose parent does not exist): the input is
+/// well-formed, the verdict every validating sub-command owes is "invalid".
+fn m2_loads_but_invalid_seeds() -> Vec<Seed> {
+    let mut out = Vec::new();
+    for (label, with_bone) in [("m2/wotlk-no-vertices", false), ("m2/wotlk-bone-parent-out-of-range", true)] {
+        let mut m = wow_m2::M2Model::default();
+        m.header = wow_m2::header::M2Header::new(wow_m2::M2Version::WotLK);
+        if with_bone {
+            if let Ok(v) = wow_m2::chunks::M2Vertex::parse(&mut Cursor::new(vec![0u8; 64]), 264) {
+                m.vertices = vec![v];
+            }
+            if let Ok(mut b) = wow_m2::chunks::bone::M2Bone::parse(&mut Cursor::new(vec![0u8; 256]), 264) {
+                b.parent_bone = 57;
+                m.bones = vec![b];
+            }
+        }
+        let mut cur = Cursor::new(Vec::new());
+        if m.write(&mut cur).is_ok() {
+            let bytes = cur.into_inner();
+            let loads = wow_m2::parse_m2(&mut Cursor::new(&bytes[..]));
+            if let Ok(f) = loads {
+                if f.model().validate().is_err() {
+                    out.push(Seed::fixed(label, bytes, 0x130));
+                }
+            }
+        }
+    }
+    out
+}
+
 // ------------------------------------------------------------ generate ----
 
 fn generate(a: &BTreeMap<String, String>) {
@@ -984,6 +1024,14 @@ fn generate(a: &BTreeMap<String, String>) {
         if f.name == "wdt" {
             seeds.push(wdt_border_seed());
         }
+        let n_extra_m2 = if f.name == "m2" {
+            let e = m2_loads_but_invalid_seeds();
+            let n = e.len();
+            seeds.extend(e);
+            n
+        } else {
+            0
+        };
         if seeds.is_empty() {
             continue;
         }
@@ -998,6 +1046,11 @@ fn generate(a: &BTreeMap<String, String>) {
             }
             if f.name == "wdt" && !chosen.contains(&(seeds.len() - 1)) {
                 chosen.push(seeds.len() - 1); // the border-tile seed is part of every run
+            }
+            for k in 0..n_extra_m2 {
+                if !chosen.contains(&(seeds.len() - 1 - k)) {
+                    chosen.push(seeds.len() - 1 - k); // loads-but-invalid models are part of every run
+                }
             }
         }
         for &si in &chosen {
